@@ -4,7 +4,7 @@ import functools as ft
 from typing import Dict, List, Mapping, Optional, Type, TypeVar, Union, cast
 
 from .._utils import lazy
-from ..exc import ExtensionError, SDLError
+from ..exc import ExtensionError, InvalidValue, SDLError
 from ..lang import ast as _ast
 from ..schema import (
     SPECIFIED_DIRECTIVES,
@@ -312,19 +312,28 @@ class ASTTypeBuilder:
         type_ = self.build_type(node.type)
         kwargs = dict(description=_desc(node), node=node)
         if node.default_value is not None:
-            kwargs["default_value"] = value_from_ast(
-                node.default_value, lazy(type_)
-            )
+            kwargs["default_value"] = self._default_value(node, type_)
         return Argument(node.name.value, type_, **kwargs)  # type: ignore
 
     def _build_input_field(self, node: _ast.InputValueDefinition) -> InputField:
         type_ = self.build_type(node.type)
         kwargs = dict(description=_desc(node), node=node)
         if node.default_value is not None:
-            kwargs["default_value"] = value_from_ast(
-                node.default_value, lazy(type_)
-            )
+            kwargs["default_value"] = self._default_value(node, type_)
         return InputField(node.name.value, type_, **kwargs)  # type: ignore
+
+    def _default_value(
+        self, node: _ast.InputValueDefinition, type_: GraphQLType
+    ) -> object:
+        try:
+            return value_from_ast(
+                cast(_ast.Value, node.default_value), lazy(type_)
+            )
+        except InvalidValue as err:
+            raise SDLError(
+                'Invalid default value for "%s": %s' % (node.name.value, err),
+                [node],
+            ) from err
 
     def _extend_object_type(self, object_type: ObjectType) -> ObjectType:
         name = object_type.name
